@@ -393,7 +393,11 @@ CPP_EDGES = [  # (kind, C++ member text using Leaf_<kind>)
     ("pure_virtual_ret", "virtual Leaf_pure_virtual_ret *pv2() = 0;"), ("template_arg", "Tm<Leaf_template_arg> t;"), ("template_ptr_arg", "Tm<Leaf_template_ptr_arg *> tp;"),
     ("static_member", "static Leaf_static_member sm;"), ("operator_param", "K &operator+=(const Leaf_operator_param &o);"), ("ref_param", "void m4(Leaf_ref_param &r);"),
     ("fnptr_field", "int (*cb)(Leaf_fnptr_field *);"), ("typedef_member", "typedef Leaf_typedef_member inner_t; inner_t it;"), ("enum_param", "void m5(LeafEnum_enum_param e);"),
-    ("method_fnptr", "void m6(void (*cb2)(Leaf_method_fnptr));"), ("dtor", "~K();")]
+    ("method_fnptr", "void m6(void (*cb2)(Leaf_method_fnptr));"), ("dtor", "~K();"),
+    # integer typedefs named by a bit-field, by a plain member and by an array member (seed C09-4: the accessors of a bit-field name its declared type)
+    ("bitfield_typedef", "Leaf_bitfield_typedef bt : 3; Leaf_bitfield_typedef bt2 : 5;"), ("int_typedef_field", "Leaf_int_typedef_field itf;"),
+    ("bitfield_typedef_signed", "Leaf_bitfield_typedef_signed bs : 4;")]
+INT_TYPEDEF_LEAVES = {"bitfield_typedef": "unsigned int", "int_typedef_field": "unsigned short", "bitfield_typedef_signed": "long"}
 
 
 def cpp_class_closure(ck, bindgen, tmp):
@@ -405,6 +409,9 @@ def cpp_class_closure(ck, bindgen, tmp):
     text = "template<class T> struct Tm { T v; };\nstruct Unrelated { int u; };\nstruct Leaf_unused { int z; };\nint unrelated_fn(Unrelated *);\n"
     for kind, _ in edges:
         if kind == "dtor":
+            continue
+        if kind in INT_TYPEDEF_LEAVES:
+            text += "typedef %s Leaf_%s;\n" % (INT_TYPEDEF_LEAVES[kind], kind)
             continue
         text += ("enum LeafEnum_%s { LE_%s };\n" % (kind, kind)) if kind == "enum_param" else ("struct Leaf_%s { int x_%s; };\n" % (kind, kind))
     text += "struct Leaf_base { int b; };\nstruct Leaf_base_method_param { int q; };\nclass Base : public Leaf_base { public: int bm(Leaf_base_method_param p); virtual ~Base(); };\n"
